@@ -557,40 +557,42 @@ def behaviour_files(prefix_dir, prefix):
 _CONJ = re.compile(r"^/\\ (\w+) = ", re.M)
 
 
-def parse_behaviour(path, var="last"):
-    """One `-simulate file=` behaviour file -> list of the values of `var`, one per state."""
+def parse_behaviour(path, var="last", counter="steps"):
+    """One `-simulate file=` behaviour file -> list of the values of `var`, one per state.  If the spec
+    has a variable `counter`, only states in which it increased are kept (plus the initial state), so
+    generator-only steps (kind selection, skips) do not show up in schedules."""
     with open(path) as f:
         text = f.read()
     res = []
+    prev = None
     for st in re.split(r"^STATE_\d+ ==\s*$", text, flags=re.M)[1:]:
         ms = list(_CONJ.finditer(st))
+        vals = {}
         for i, m in enumerate(ms):
-            if m.group(1) == var:
+            if m.group(1) in (var, counter):
                 end = ms[i + 1].start() if i + 1 < len(ms) else len(st)
                 body = st[m.end():end]
                 body = re.split(r"^\\\*|^====", body, flags=re.M)[0]
-                res.append(parse_tla(body))
+                vals[m.group(1)] = parse_tla(body)
+        if counter in vals:
+            if prev is not None and vals[counter] == prev:
+                continue
+            prev = vals[counter]
+        if var in vals:
+            res.append(vals[var])
     return res
 
 
-def simulate(ctx, module, cfg, num, depth, seed=None, timeout=900, workers=1):
-    """tlc -simulate writing behaviour files; returns (TLCResult, list of schedules) where a schedule
-    is the list of `last` records of the behaviour without the initial state's."""
-    ctx.ntlc += 1
-    d = ctx.sub("sim%d" % ctx.ntlc)
-    r = tlc(ctx, module, cfg, mode="simulate", workers=workers, sim_num=num, sim_depth=depth,
-            seed=seed if seed is not None else ctx.seed, timeout=timeout,
-            extra=[])
-    return r
-
-
-def simulate_schedules(ctx, module, cfg, num, depth, seed=None, timeout=900):
+def simulate_schedules(ctx, module, cfg, num, depth, seed=None, timeout=900, workers=None):
+    """num behaviours in total, generated by `workers` simulation workers (num is per worker in TLC)."""
+    workers = workers or min(NCPU, max(1, num // 8))
+    per = (num + workers - 1) // workers
     ctx.ntlc += 1
     bdir = ctx.sub("beh%d" % ctx.ntlc)
     prefix = os.path.join(bdir, "b")
     # file=... is part of the -simulate argument
     d_seed = seed if seed is not None else ctx.seed
-    r = _tlc_sim_files(ctx, module, cfg, num, depth, d_seed, prefix, timeout)
+    r = _tlc_sim_files(ctx, module, cfg, per, depth, d_seed, prefix, timeout, workers)
     scheds = []
     for f in behaviour_files(bdir, "b"):
         vals = parse_behaviour(f)
@@ -601,7 +603,7 @@ def simulate_schedules(ctx, module, cfg, num, depth, seed=None, timeout=900):
     return r, scheds
 
 
-def _tlc_sim_files(ctx, module, cfg, num, depth, seed, prefix, timeout):
+def _tlc_sim_files(ctx, module, cfg, num, depth, seed, prefix, timeout, workers=1):
     d = ctx.sub("tlc%d" % ctx.ntlc)
     for f in os.listdir(SPEC):
         if f.endswith(".tla"):
@@ -610,7 +612,7 @@ def _tlc_sim_files(ctx, module, cfg, num, depth, seed, prefix, timeout):
         f.write(cfg)
     cmd = ["java", "-XX:+UseParallelGC", "-Xss512m",
            "-cp", "/opt/veriftools/tla/tla2tools.jar:/opt/veriftools/tla/CommunityModules-deps.jar",
-           "tlc2.TLC", "-workers", "1", "-metadir", os.path.join(d, "meta"), "-deadlock",
+           "tlc2.TLC", "-workers", str(workers), "-metadir", os.path.join(d, "meta"), "-deadlock",
            "-config", module + ".cfg", "-simulate", "file=%s,num=%d" % (prefix, num),
            "-depth", str(depth), "-seed", str(seed), module + ".tla"]
     env = dict(os.environ)
